@@ -1,7 +1,7 @@
 import TallyVerif.Driver.Expr
 import TallyVerif.Model.View
 /-! ops `vieweval` (one view expression on one context), `views` (`classify_by_sections` +
-`compute_section_totals`), `viewkeys` (the four strftime grouping keys of a date). -/
+`compute_section_totals`; with `view_ids` also the `sections` dictionary of the HTML report's data), `viewkeys` (the four strftime grouping keys of a date). -/
 namespace TallyVerif.Driver
 open Lean TallyVerif.Py TallyVerif.Expr TallyVerif.View
 
@@ -90,7 +90,19 @@ def handleViews (j : Json) : Json :=
     let pd := View.periodData n (View.keptMerchants lower ms)
     obj [("result", .arr (r.map fun (k, mem) => Json.arr #[.str k, .arr (mem.map fun m => Json.str m.name).toArray]).toArray),
          ("totals", .arr (r.map fun (k, mem) => Json.arr #[.str k, resultJson (View.sectionTotal mem), .num mem.length]).toArray),
-         ("period", .arr (pd.map fun (k, v) => Json.arr #[.str k, valToJson v]).toArray)]
+         ("period", .arr (pd.map fun (k, v) => Json.arr #[.str k, valToJson v]).toArray)] |> fun out =>
+    -- `view_ids` (optional): [[view name, the id the real report gives a view of that name], …] - the external id function of
+    -- `write_summary_file_vue`; with it the answer also carries the report's `sections` dictionary (id, title, merchant names)
+    match jget j "view_ids" with
+    | .arr ids =>
+      let tbl : List (String × String) := ids.toList.filterMap fun p =>
+        match p with
+        | .arr #[a, b] => some (asStr a, asStr b)
+        | _ => none
+      let idOf : String → String := fun s => (tbl.lookup s).getD s
+      let h := View.htmlSections idOf (r.map fun (k, mem) => (k, mem.map (·.name)))
+      out.setObjVal! "html" (.arr (h.map fun (i, t, mem) => Json.arr #[.str i, .str t, .arr (mem.map Json.str).toArray]).toArray)
+    | _ => out
 
 def handleViewKeys (j : Json) : Json :=
   .arr ((jarr j "dates").map fun dj =>
